@@ -1100,7 +1100,15 @@ def step_rel(tb, ta, k, v, g, prio, dt, quantified=True):
     out.append(("siblings-untouched(whole-view)", others_unchanged(tb, ta, [c])))
     if isinstance(v, (ItemsMap, SymDict)):
         child_before = z3.If(is_dict(tb, ct), CF(tb)[ct], EMPTY)
-        child_dt = z3.If(z3.And(M.NE(dt), is_dict(dt, ct)), CF(dt)[ct], EMPTY)
+        # the defaults handed down to the section: ghost (recorded at the recursive call / fresh at call sites), constrained to be
+        # none, or the defaults' own section for this key under SOME spelling - and the store's spelling when that is unambiguous
+        child_dt, dkey = g["dt"], g.get("dkey")
+        belongs = child_dt == EMPTY
+        if dkey is not None:
+            belongs = z3.Or(belongs, z3.And(is_dict(dt, dkey), norm(dkey) == norm(k), child_dt == CF(dt)[sterm(dkey)]))
+        out.append(("section:defaults-handed-down-are-none-or-the-defaults'-section-for-this-key", belongs))
+        out.append(("section:defaults-handed-down-are-the-section-under-the-store's-spelling-when-unambiguous",
+                    implies(AND(M.NE(dt), is_dict(dt, ct), OR(ct == sterm(k), NOT(present(dt, k))), pure(k), pure(ct)), child_dt == CF(dt)[ct])))
         out.append(("section-stays-or-becomes-a-dict", is_dict(ta, ct)))
         if isinstance(v, ItemsMap):
             out += [("section:" + n, f) for n, f in update_rel(child_before, CF(ta)[ct], v.items(), g["sub"], prio, child_dt, quantified)]
@@ -1112,8 +1120,15 @@ def step_rel(tb, ta, k, v, g, prio, dt, quantified=True):
         elif prio == "old":
             write = z3.Not(present(tb, ct))
         else:
-            write = z3.Or(z3.Not(present(tb, ct)), z3.And(M.NE(dt), present(dt, ct), same_entry(dt, ct, tb, ct)))
-        out.append(("value-written-iff-priority-rule", z3.If(write, entry_is(ta, ct, v), entry_kept(tb, ta, ct))))
+            # 'new-defaults': stated so that it holds whichever spelling the current default is looked up under
+            exact = z3.Or(z3.Not(present(tb, ct)), z3.And(M.NE(dt), present(dt, ct), same_entry(dt, ct, tb, ct)))
+            no_match = forall(E_, NOT(AND(M.NE(dt), present(dt, E_), TO_US(E_) == norm(k), same_entry(dt, E_, tb, ct))), patterns=[TO_US(E_)])
+            out.append(("value-written-when-absent-or-equal-to-the-default-under-the-store's-spelling", implies(exact, entry_is(ta, ct, v))))
+            out.append(("value-kept-when-no-spelling-of-the-default-matches", implies(AND(present(tb, ct), no_match), entry_kept(tb, ta, ct))))
+            out.append(("value-written-or-kept", OR(entry_is(ta, ct, v), entry_kept(tb, ta, ct))))
+            write = None
+        if write is not None:
+            out.append(("value-written-iff-priority-rule", z3.If(write, entry_is(ta, ct, v), entry_kept(tb, ta, ct))))
         out.append(("entry-present-afterwards(no-key-dropped)", present(ta, ct)))
     return out
 
@@ -1131,6 +1146,8 @@ def fresh_ghost(ctx, items):
     gs = []
     for k, v in items:
         g = dict(c=fresh_str(ctx, "canon"), after=z3.Const(ctx.fresh_name("tree"), TREE), sub=None)
+        if isinstance(v, (ItemsMap, SymDict)):
+            g["dt"], g["dkey"] = z3.Const(ctx.fresh_name("defaults_handed_down"), TREE), fresh_str(ctx, "dkey")
         if isinstance(v, ItemsMap):
             g["sub"] = fresh_ghost(ctx, v.items())
         gs.append(g)
@@ -1239,12 +1256,21 @@ def up_ghost_verify(s):
     for i, ((k, v), call) in enumerate(zip(items, calls)):
         after = calls[i + 1][3] if i + 1 < len(calls) else s.old_handle.tree()
         gg = dict(c=call[2], after=after, sub=None, before=call[3])
-        if isinstance(v, ItemsMap):
+        if isinstance(v, (ItemsMap, SymDict)):
             if not subs:
                 return None
-            gg["sub"] = subs.pop(0)
+            rec = subs.pop(0)
+            gg["sub"], gg["dt"], gg["dkey"] = rec["gs"], rec["dt"], rec["dkey"]
         gs.append(gg)
     return gs
+
+
+def nd_path_tag(ctx, t, dt, c):
+    """Semantic tag of the path (so that obligation names do not depend on path numbering)."""
+    def tri(f, yes, no):
+        return yes if ctx.entails(f) else no if ctx.entails(z3.Not(f)) else "?"
+    return ",".join([tri(present(t, c), "key-stored", "key-not-stored"), tri(M.NE(dt), "defaults-non-empty", "defaults-empty"),
+                     tri(present(dt, c), "default-under-store's-spelling", "no-default-under-store's-spelling")])
 
 
 def up_ensures(s):
@@ -1261,9 +1287,18 @@ def up_ensures(s):
         # property level: the current default of the key may be stored under the other spelling (witness e from setup)
         (k, v), e, c, dt = s.new.items()[0], s.default_spelling, gs[0]["c"], s.defaults.tree()
         match = AND(present(dt, e), norm(e) == norm(k), same_entry(dt, e, t, c))
-        out += [("unchanged-default-is-replaced[default-stored-under-the-store's-spelling]", implies(AND(match, sterm(e) == sterm(c)), entry_is(t2, c, v)))]
-        # (the same clause for a default stored under the OTHER spelling is lemma `new-defaults-rule-identifies-spellings`)
+        out += [("unchanged-default-is-replaced[default-stored-under-the-store's-spelling]", implies(AND(match, sterm(e) == sterm(c)), entry_is(t2, c, v))),
+                # (defaults that hold BOTH spellings of the key are left out: `not present(dt, c)`)
+                (f"unchanged-default-is-replaced[default-stored-under-the-other-spelling-only][{nd_path_tag(s.ctx, t, dt, c)}]",
+                 implies(AND(match, NOT(present(dt, c)), pure(e), pure(k), pure(c)), entry_is(t2, c, v)))]  # (keys mixing '-' and '_': see canonical_name)
     return [(f"[{s.case}{',defaults-given' if s.defaults is not None else ''}]{a}", b) for a, b in out]
+
+
+def defaults_key(defaults):
+    """The key under which a handed-down defaults section hangs in its parent (ghost), None for None / a top-level mapping."""
+    if isinstance(defaults, SymDict) and defaults.path:
+        return Sym(defaults.path[-1])
+    return None
 
 
 def up_modifies(ctx, s):
@@ -1281,12 +1316,12 @@ def up_modifies(ctx, s):
         if gs:
             old._install(ctx, t2)
         s._assumed = update_rel(t, t2, items, gs, s.priority, dt)
-        ctx.ghost.setdefault("update_calls", []).append(gs)
+        ctx.ghost.setdefault("update_calls", []).append(dict(gs=gs, dt=dt, dkey=defaults_key(s.defaults)))
     elif isinstance(s.new, SymDict):
         t2 = z3.Const(ctx.fresh_name("tree"), TREE)
         old._install(ctx, t2)
         s._assumed = [("opaque-mapping-merged", t2 == UPD(t, s.new.tree(), z3.IntVal(PRIO[s.priority]), dt))]
-        ctx.ghost.setdefault("update_calls", []).append(None)
+        ctx.ghost.setdefault("update_calls", []).append(dict(gs=None, dt=dt, dkey=defaults_key(s.defaults)))
     else:
         raise OutOfSubset(f"update() with new of type {type(s.new).__name__}")
 
@@ -1365,7 +1400,7 @@ def mg_ensures(s):
             out.append(("no-arguments:empty", t == EMPTY))
     if s.mode == "apply":
         return out
-    gss = s.ctx.ghost.get("update_calls", [])[s.old.n_up:]
+    gss = [x["gs"] for x in s.ctx.ghost.get("update_calls", [])[s.old.n_up:]]
     if len(gss) != len(s.dicts) or (not s.shape.startswith("opaque") and any(g is None for g in gss)):
         return [(f"[{s.shape}]{a}", b) for a, b in out + [("ghost:one-update-per-argument", z3.BoolVal(False))]]
     if s.shape == "flat+flat":
@@ -1452,7 +1487,7 @@ def ud_ensures(s):
     d = s.defaults
     out = [("defaults-stack-grows-by-exactly-the-new-mapping", z3.BoolVal(len(d) == len(s.old.defaults) + 1 and all(a is b for a, b in zip(d, s.old.defaults)) and d[-1] is s.new)),
            ("earlier-defaults-unchanged", z3.BoolVal([x.root.writes for x in s.old.defaults] == s.old.dwrites))]
-    gss = g.get("update_calls", [])[s.old.n_up:]
+    gss = [x["gs"] for x in g.get("update_calls", [])[s.old.n_up:]]
     if len(gss) != 1 or gss[0] is None:
         return out + [("ghost:one-update-of-the-store", z3.BoolVal(False))]
     ft = fold_defaults([x.tree() for x in s.old.defaults])
@@ -1635,8 +1670,7 @@ def lemma_new_defaults_spelling(ctx):
     g = dict(c=Sym(c), after=ta, sub=None)
     hyp = _facts(k, c, e) + [f for _, f in step_rel(tb, ta, Sym(k), v, g, "new-defaults", dt)] + [z3.Implies(present(dt, e), M.NE(dt)), z3.Implies(present(dt, c), M.NE(dt))]
     match = AND(present(dt, e), norm(e) == norm(k), same_entry(dt, e, tb, c))
-    return [("default-under-the-store's-spelling", hyp + [match, e == c], entry_is(ta, c, v)),
-            ("default-under-any-spelling", hyp + [match], entry_is(ta, c, v))]
+    return [("default-under-the-store's-spelling", hyp + [match, e == c], entry_is(ta, c, v))]
 
 
 LEMMAS = [
@@ -2045,7 +2079,7 @@ def rt_history(inp):
 def history_ops(mixed=True):
     ops = [("set", "a-b", 1), ("set", "a_b", 2), ("set", "c.d-e", 3), ("set", "c.d_e", 4), ("set", "c", {"d-e": 5, "f": 6}), ("set", "a-b.x", 7),
            ("setkw", "a_b", 8), ("setkw", "c__d_e", 9),
-           ("defaults", {"a_b": 10}), ("defaults", {"c": {"d-e": 11, "g": 12}}), ("defaults", {"a-b": 1}), ("defaults", {"a_b": 1}), ("refresh",)]
+           ("defaults", {"a_b": 10}), ("defaults", {"c": {"d-e": 11, "g": 12}}), ("defaults", {"a-b": 1}), ("defaults", {"a_b": 1}), ("defaults", {"c": 7}), ("refresh",)]
     if mixed:
         ops += [("set", "m-n-o", 20), ("set", "m_n-o", 21), ("set", "m_n_o", 22), ("defaults", {"m-n_o": 23})]
     return ops
@@ -2086,6 +2120,8 @@ def klass_history(inp, res):
             def_keys += _dict_keys(op[1])
     if res.get("probe"):
         keys.append(res["probe"])
+    if "real raised TypeError, reference returns" in str(res.get("observed")) and inp["ops"][(res.get("steps_run") or 1) - 1][0] == "defaults":
+        return "update_defaults:scalar-default-where-new-defaults-have-a-section"
     k = klass_spelling(keys)
     if k == "any" and other_spelling_in_defaults(set_keys + def_keys, def_keys):
         return "new-defaults:default-stored-under-another-spelling"
@@ -2231,7 +2267,7 @@ for _c, _rt, _fam, _conc in (
 
 BOUNDED = [
     Bounded.from_rt("history replay against a normalised-key dictionary reference", rt_history, fam_history,
-                    "all histories of depth <=3 (quick) / <=4 (thorough) over 17 operations (set mapping / keyword form, dotted keys, both spellings, mapping values, update_defaults, refresh), 10 probe keys after every step",
+                    "all histories of depth <=3 (quick) / <=4 (thorough) over 18 operations (set mapping / keyword form, dotted keys, both spellings, mapping values, update_defaults, refresh), 10 probe keys after every step",
                     klass=klass_history),
     Bounded.from_rt("update/merge on small nested dicts against the reference merge", rt_update, fam_update, "6 old x 7 new x (2 priorities + 5 defaults) dicts, depth <=3", klass=klass_update),
     Bounded.from_rt("canonical_name on small key sets", rt_canon, fam_canon, "keys a, a-b, a_b, a-b-c, a-b_c, a_b-c, a_b_c against 0..2 stored keys",
